@@ -97,6 +97,15 @@ PROPS = {
         real=['alarm::Alarm (arming, re-arming, refresh, remainSeconds)', 'WeeklyAlarm / OneshotAlarm / WorkdayAlarm + WorkdayCalendar / CronAlarm + ccronexpr', 'event loop one-shot timers'],
         stub=['monotonic clock and wall clock (both virtual; skew between them and wall-clock jumps are injected)', 'time zone (always set explicitly)'],
     ),
+    'C09': dict(
+        harness='c09_logging',
+        title='Logging',
+        flavours=dict(asan=dict(quick_s=30, thorough_s=600), tsan=dict(quick_s=12, thorough_s=300)),
+        race_re=r'modules/(tbox/)?(base/log|log/|util/async_pipe)',
+        mode='threads',
+        real=['base LogPrintfFunc front end (formatting, truncation, dispatch lock)', 'log::Sink filter', 'log::AsyncSink framing', 'log::AsyncFileSink (roll-over, file naming)', 'util::AsyncPipe + its back-end thread', 'real files in a per-run directory'],
+        stub=['kernel thread scheduling (seeded scheduler)', 'wall clock and monotonic clock (virtual)', 'no disk faults are injected (the property does not state behaviour under I/O errors)'],
+    ),
 }
 
 NOT_APPLICABLE = {
@@ -108,4 +117,4 @@ NOT_APPLICABLE = {
 
 # planned in DESIGN.md §7 but whose harness is not built yet — not claimed until it is
 PENDING = {p: 'harness not built yet (planned in DESIGN.md §7); not claimed until the check exists' for p in
-           ['C04', 'C09', 'C11', 'C13', 'C17']}
+           ['C04', 'C11', 'C13', 'C17']}
